@@ -159,11 +159,19 @@ func main() {
 				continue
 			}
 			seen[rid] = true
-			r, ok := rules[rid]
+			// "RULE/CLAUSE1,CLAUSE2": only the obligations of RULE whose construct starts with one of the clause names
+			base, clauses, _ := strings.Cut(rid, "/")
+			r, ok := rules[base]
 			if !ok {
 				fmt.Printf("UNDECIDED property=%s rule %s is not implemented\n", id, rid)
 				exit = max(exit, 2)
 				continue
+			}
+			if clauses != "" {
+				if seen[base] {
+					continue
+				}
+				r = lint.OnlyClauses(r, strings.Split(clauses, ","))
 			}
 			rs = append(rs, r)
 		}
